@@ -1,5 +1,5 @@
 (** One entry point for the extracted model runner: component number, numbers in, numbers out. *)
-From Remoc Require Import Lib.Base Run.RunCodec Run.RunRobsVec Run.RunRobsDeque Run.RunRobsList Run.RunRobsMap Run.RunRobsSet Run.RunPort Run.RunBroadcast Run.RunIoChan Run.RunEndpoint Run.RunHandle Run.RunLazy Run.RunRwLock Run.RunWatch Run.RunRobsLag Run.RunRtc Run.RunPorts Run.RunBase Run.RunSharedQ.
+From Remoc Require Import Lib.Base Run.RunCodec Run.RunRobsVec Run.RunRobsDeque Run.RunRobsList Run.RunRobsMap Run.RunRobsSet Run.RunPort Run.RunBroadcast Run.RunIoChan Run.RunEndpoint Run.RunHandle Run.RunLazy Run.RunRwLock Run.RunWatch Run.RunRobsLag Run.RunRtc Run.RunPorts Run.RunBase Run.RunSharedQ Run.RunAlloc.
 
 Definition run (comp : N) (inp : list N) : list N :=
   match comp with
@@ -24,5 +24,6 @@ Definition run (comp : N) (inp : list N) : list N :=
   | 5 => run_halves inp
   | 4 => run_base inp
   | 3 => run_sharedq inp
+  | 71 => run_alloc inp
   | _ => [97]
   end.
